@@ -51,6 +51,10 @@ func (r *run) execCall(fr *frame, st *State, instr ssa.Value, c *ssa.CallCommon,
 		return wrapRes(r.callStatic(fr, st, fv.Fn.Fn, args, fv.Fn.Bindings, reach, pos, sig))
 	}
 	if ct := r.dynContract(c); ct != nil {
+		ct.Used = true
+		if len(ct.Candidates) > 0 {
+			return wrapRes(r.dispatchCandidates(fr, st, ct, fv, args, reach, pos, sig))
+		}
 		r.oblige(fr.name, "nil-func-call", reach, fmt.Sprintf("(not (= %s 0))", fv.Term), "call through function value "+c.Value.Name(), pos)
 		return wrapRes(r.applyContract(fr, st, ct, sig, nil, args, reach, pos, "dynamic:"+ct.Key))
 	}
@@ -559,4 +563,50 @@ func (r *run) tryInline(fr *frame, st *State, callee *ssa.Function, args, bindin
 		}
 	}()
 	return r.inline(fr, st, callee, args, bindings, reach, ct), true
+}
+
+// dispatchCandidates: a function value known (by a data-structure invariant stated as a
+// field contract) to be one of a finite set of repo functions: case split, each case against
+// that function's own contract; that the value is one of them is an obligation.
+func (r *run) dispatchCandidates(fr *frame, st *State, ct *Contract, fv Val, args []Val, reach string, pos token.Pos, sig *types.Signature) []Val {
+	pkgPath := ct.Key[strings.Index(ct.Key, ":")+1:]
+	for i := 0; i < 2; i++ {
+		if j := strings.LastIndex(pkgPath, "."); j > 0 {
+			pkgPath = pkgPath[:j]
+		}
+	}
+	type caseRes struct {
+		guard string
+		res   []Val
+		st    *State
+	}
+	var cases []caseRes
+	var guards []string
+	for _, cn := range ct.Candidates {
+		fn := r.eng.Funcs[pkgPath+"."+cn]
+		if fn == nil {
+			r.unsupported("candidate %s of %s not found", cn, ct.Key)
+		}
+		g := fmt.Sprintf("(= %s %s)", fv.Term, r.fnTerm(fn))
+		guards = append(guards, g)
+		cst := st.clone()
+		res := r.callStatic(fr, cst, fn, args, nil, and(reach, g), pos, sig)
+		cases = append(cases, caseRes{g, res, cst})
+	}
+	r.oblige(fr.name, "func-value-known", reach, or(guards...), "function value is one of: "+strings.Join(ct.Candidates, ", "), pos)
+	var edges []inEdge
+	for _, cs := range cases {
+		edges = append(edges, inEdge{cond: and(reach, cs.guard), st: cs.st})
+	}
+	ms, _ := r.mergeStates(edges)
+	*st = *ms.clone()
+	var out []Val
+	for i := 0; i < sig.Results().Len(); i++ {
+		var col []Val
+		for _, cs := range cases {
+			col = append(col, cs.res[i])
+		}
+		out = append(out, r.mergeVals(edges, col, "cand"))
+	}
+	return out
 }
